@@ -388,10 +388,11 @@ func (r *Runtime) arrayproto_sort(call FunctionCall) Value {
 		}
 	}
 
+	// Only Go-backed slices are sorted in place. For ordinary arrays the elements are collected first and
+	// written back afterwards, because the comparison (a user function, or toString() of the elements)
+	// may modify the array while it is being sorted.
 	var s sortable
-	if r.checkStdArrayObj(o) != nil {
-		s = o.self
-	} else if _, ok := o.self.(reflectValueWrapper); ok {
+	if _, ok := o.self.(reflectValueWrapper); ok {
 		s = o.self
 	}
 
